@@ -5,6 +5,8 @@ import (
 	"strconv"
 	"sync"
 	"sync/atomic"
+
+	"github.com/form3tech-oss/f1/v2/internal/verifhook"
 )
 
 func newTriggerPool(m *PoolManager, numWorkers int) *TriggerPool {
@@ -34,6 +36,7 @@ func (p *TriggerPool) Trigger(ctx context.Context, numJobs int) {
 	if ctx.Err() != nil {
 		return
 	}
+	verifhook.Yield("pool.trigger.after_ctx_check")
 	p.sendJobsForExecution(numJobs)
 }
 
@@ -71,11 +74,13 @@ func (p *TriggerPool) running() bool {
 
 func (p *TriggerPool) stop() {
 	p.stopWorkers.Store(true)
+	verifhook.Yield("pool.stop.after_flag")
 	p.sendJobsForExecution(0)
 }
 
 func (p *TriggerPool) maxIterationsReached() {
 	p.jobsToExecute.set(0)
+	verifhook.Yield("pool.limit.after_discard")
 	p.workerCtxCancel()
 }
 
@@ -113,6 +118,7 @@ func (p *TriggerPool) run(
 			p.waitForNewJobs()
 		}
 
+		verifhook.Yield("pool.worker.before_take")
 		if p.jobsToExecute.take() {
 			iteration, err := p.manager.NextIteration()
 			if err != nil {
